@@ -82,3 +82,14 @@ def extendSchema(self, src):
     parser = SchemaParser(self._loader, src, self)
     with self._loader.openResource(src) as r:
         xml.sax.parse(r.file, parser)
+
+
+def urlunsplit(parts):
+    parts = list(parts)
+    parts.insert(3, '')
+    url = urllib.request.urlunparse(tuple(parts))
+    if parts[0] == "file":
+        if url.startswith("file:/"):
+            if not url.startswith("file:///"):
+                url = "file://" + url[5:]
+    return url
